@@ -16,6 +16,58 @@ type form struct {
 	pg    bool     // spelling SQLite does not execute (ILIKE ...)
 }
 
+// class names the operator family of a form; violation cells are named by
+// class so that one printer defect that shows with every operator of the same
+// precedence level lands in one cell.
+func (f form) class() string {
+	switch f.name {
+	case "bin=", "bin==", "bin<>", "bin!=":
+		return "eq"
+	case "bin<", "bin<=", "bin>", "bin>=":
+		return "rel"
+	case "bin<<", "bin>>", "bin&", "bin|":
+		return "bit"
+	case "bin+", "bin-":
+		return "add"
+	case "bin*", "bin/", "bin%":
+		return "mul"
+	case "bin||", "bin->", "bin->>":
+		return "concat"
+	case "binOR":
+		return "or"
+	case "binAND":
+		return "and"
+	case "isnull", "isnotnull":
+		return "isnull"
+	case "isnullkw", "notnullkw":
+		return "postfixnull"
+	case "is", "isnot", "isdistinct", "isnotdistinct":
+		return "is"
+	case "between", "notbetween":
+		return "between"
+	case "in", "notin", "in1", "in0":
+		return "inlist"
+	case "insub", "notinsub":
+		return "insub"
+	case "like", "notlike", "likeesc", "glob", "notglob", "regexp", "match", "ilike":
+		return "like"
+	case "abs", "coalesce", "max2", "countstar", "count", "countdistinct", "sumfilter", "groupconcat":
+		return "func"
+	case "castint", "casttext", "castvarchar", "castdecimal", "castdouble":
+		return "cast"
+	case "case", "caseelse", "caseoperand", "case2":
+		return "case"
+	case "exists", "notexists":
+		return "exists"
+	case "scalar", "scalarcorr":
+		return "scalarsub"
+	case "rowvalue", "roweq":
+		return "row"
+	}
+
+	return f.name
+}
+
 func (f form) arity() int { return len(f.atoms) }
 
 func (f form) build(ops []string) string {
@@ -112,6 +164,7 @@ func init() {
 type etree struct {
 	text    string
 	label   string
+	class   string   // label with form names replaced by their classes
 	simpler []string // labels
 	reads   string
 	pg      bool
@@ -126,7 +179,7 @@ func exprShapes(depth int) []etree {
 	d1 := map[string]etree{}
 
 	for _, f := range forms {
-		t := etree{text: f.build(f.atoms), label: f.name, reads: f.reads, pg: f.pg}
+		t := etree{text: f.build(f.atoms), label: f.name, class: f.class(), reads: f.reads, pg: f.pg}
 		d1[f.name] = t
 		out = append(out, t)
 	}
@@ -142,17 +195,10 @@ func exprShapes(depth int) []etree {
 		return etree{
 			text:    f.build(ops),
 			label:   fmt.Sprintf("%s[%d:%s]", f.name, slot, inner.label),
+			class:   fmt.Sprintf("%s[%d:%s]", f.class(), slot, inner.class),
 			simpler: simp,
 			reads:   strings.TrimSpace(f.reads + " " + inner.reads),
 			pg:      f.pg || inner.pg,
-		}
-	}
-
-	paren := forms[0]
-
-	for _, f := range forms {
-		if f.name == "paren" {
-			paren = f
 		}
 	}
 
@@ -233,6 +279,7 @@ func exprShapes(depth int) []etree {
 				out = append(out, etree{
 					text:    f.build(ops),
 					label:   fmt.Sprintf("%s[0:%s,1:%s]", f.name, g.name, h.name),
+					class:   fmt.Sprintf("%s[0:%s,1:%s]", f.class(), g.class(), h.class()),
 					simpler: []string{fmt.Sprintf("%s[0:%s]", f.name, g.name), fmt.Sprintf("%s[1:%s]", f.name, h.name)},
 				})
 			}
@@ -251,7 +298,7 @@ func exprFamily(depth int) []Stmt {
 			SQL:    "SELECT " + t.text + " FROM t1",
 			Kind:   "select",
 			Family: "expr",
-			Cell:   "expr:" + t.label,
+			Cell:   "expr:" + t.class,
 			Key:    "expr:" + t.label,
 			Uses:   cat(uses(Read, "select.from", "t1"), uses(Read, "select.column", t.reads)),
 			NoExec: t.pg,
